@@ -48,6 +48,7 @@ func init() {
 		return []*vexplore.Scenario{
 			{Name: "stream-chunking-recv", Mode: "enum", Reset: kit.ResetGlobals, Body: func() { chunking(tier == "thorough") }, NeedCounters: []string{"split-inside-length-prefix", "split-inside-payload", "one-byte-reads"}},
 			{Name: "stream-send-sizes", Mode: "enum", Reset: kit.ResetGlobals, Body: sendSizes},
+			{Name: "stream-recv-sizes", Mode: "enum", Reset: kit.ResetGlobals, Body: recvSizes},
 		}
 	})
 	vexplore.Register("C15", func(tier string) []*vexplore.Scenario {
@@ -673,6 +674,39 @@ func sendSizes() {
 	}
 	if got := h.Written(); !bytes.Equal(got, want) {
 		kit.Failf("stream-bytes-differ", "%s sizes %d,%d,%d: mangos wrote %d bytes, the SP mapping gives %d bytes; first difference at %d", k.Name, sendSz[i], sendSz[j], sendSz[i], len(got), len(want), firstDiff(got, want))
+	}
+	kit.Observe("%s %s %d %d", scheme, k.Name, sendSz[i], sendSz[j])
+	kit.Must("Close", func() { _ = v.x.S.Close() })
+}
+
+// recvSizes: three frames of sizes next to the buffer-pool classes arrive back to back (the
+// buffers of earlier messages are released in between, so pooled buffers are reused across
+// classes); each Recv returns exactly the payload of its frame.
+func recvSizes() {
+	pickScheme()
+	k := kinds.ByName([]string{"pull", "pair", "xsub"}[kit.ChooseFree(3)])
+	i := kit.ChooseFree(len(sendSz))
+	j := kit.ChooseFree(len(sendSz))
+	if i < 20 && j < 20 && (i+j)%3 != 0 {
+		return // thin out the small x small pairs
+	}
+	v := open(k, -1)
+	h := v.goodPeer("recv-sizes")
+	v.x.PrepRecv()
+	for n, sz := range []int{sendSz[i], sendSz[j], sendSz[i]} {
+		m := pat(n+5, sz)
+		h.Feed(frame(m))
+		c := kit.Start("Recv", func() (interface{}, error) { return v.x.Recv() })
+		kit.Quiesce()
+		if !c.Done() || c.Err != nil {
+			kit.Failf("stream-recv", "%s: frame of %d bytes (message %d of sizes %d,%d,%d): Recv done=%v %s", k.Name, sz, n, sendSz[i], sendSz[j], sendSz[i], c.Done(), kit.ErrName(c.Err))
+		}
+		if got := c.Val.(string); got != string(m) {
+			kit.Failf("stream-recv-differs", "%s: frame of %d bytes (message %d of sizes %d,%d,%d): Recv returned %d bytes, first difference at %d", k.Name, sz, n, sendSz[i], sendSz[j], sendSz[i], len(got), firstDiff([]byte(got), m))
+		}
+	}
+	if h.Unread() != 0 {
+		kit.Failf("chunked-unread", "%d bytes were never read", h.Unread())
 	}
 	kit.Observe("%s %s %d %d", scheme, k.Name, sendSz[i], sendSz[j])
 	kit.Must("Close", func() { _ = v.x.S.Close() })
